@@ -93,7 +93,8 @@ impl OwnedMsg {
 }
 
 /// The data block of transfer `id`: pseudo-random bytes, a function of (id, len)
-/// such that blocks of the same id are prefixes of each other.
+/// such that blocks of the same id are prefixes of each other and blocks of ids
+/// that differ modulo 16 differ in every byte.
 pub fn blob(id: i64, len: usize) -> Vec<u8> {
     let mut x: u64 = (id as u64).wrapping_mul(0x9E37_79B9_7F4A_7C15) ^ 0xD1B5_4A32_D192_ED03;
     if x == 0 {
@@ -107,7 +108,10 @@ pub fn blob(id: i64, len: usize) -> Vec<u8> {
         let v = x.wrapping_mul(0x2545_F491_4F6C_DD1D);
         for b in v.to_le_bytes() {
             if out.len() < len {
-                out.push(b);
+                // the low nibble of every byte is the transfer's "colour" (id mod 16; a run has at
+                // most 9 transfers with consecutive ids), so pieces of different transfers of a run
+                // never have a byte in common and even a 1-byte piece maps back unambiguously
+                out.push((b & 0xF0) | ((id as u8) & 0x0F));
             }
         }
     }
